@@ -388,7 +388,8 @@ class Integer(Element):
     @unconvert.register
     def _unconvert_int(self, value: int) -> str:
         value = self.enforce_length(value)
-        return str(value)
+        # int() so that a bool (an int subclass) isn't written as "True"/"False"
+        return str(int(value))
 
 
 #  N.B. "scale" here means "decimal places"
